@@ -143,7 +143,7 @@ func (t *NameTable) rebuild() {
 }
 
 var safeKeyRe = regexp.MustCompile(`^[A-Za-z0-9_\-$]+$`)
-var safeValRe = regexp.MustCompile(`^[A-Za-z0-9_\-./: ()]*$`)
+var safeValRe = regexp.MustCompile(`^[A-Za-z0-9_\-./: ();=]*$`)
 
 // Abs maps a concrete member name / pointer token to its abstract label.
 func (t *NameTable) Abs(concrete string) string {
